@@ -913,7 +913,7 @@ class TTNS(TTNBase):
             ttno = TTNO(self.basis, ttno)
 
         assert bra is None  # not implemented yet
-        basis_node = TreeNodeBasis([BasisDummy("expectation dummy")])
+        basis_node = TreeNodeBasis([BasisDummy("expectation dummy", sigmaqn=[[0] * self.basis.qn_size])])
         basis_node_ttns = basis_node
         basis_node_ttno = basis_node.copy()
         basis_node_ttns.add_child(self.basis.root.copy())
